@@ -32,6 +32,7 @@ POLICIES = {
     "large0109": dict(large_fo="refuse0109"),
     "nofo": dict(large_fo="refuse08", std_fo="refuse"),
     "nosession": dict(session="refuse"),
+    "nosession_h": dict(session="refuse-with-handle"),
     "notcp": dict(),
     "nofclose": dict(fclose="refuse"),
     # a target that is out of connections at first: the first 1 / 2 Forward Opens are refused, later ones accepted
